@@ -46,7 +46,7 @@ PROBES = ["kind:p2pk", "kind:p2pkh", "kind:multisig", "kind:p2sh-multisig", "kin
           "sighash_direct_256", "codeseparator_script", "noncommitted_change_still_valid", "committed_change_invalidates",
           "revalidate_fresh_equal", "default_flags_verdict_checked", "inputs>=253", "spendable_form_text", "spendable_form_dict", "spendable_form_bin", "wire_big_inputs", "wire_big_outputs",
           "wire_big_out_script", "wire_big_in_script", "wire_big_witness_item", "wire_big_witness_count",
-          "oneshot_create_signed_tx", "oneshot_refused_missing_key", "check_solution_entry", "sighash_script_code>=253", "pass_over_short_signature", "solver_object_reused", "checker_object_reused"]
+          "oneshot_create_signed_tx", "oneshot_refused_missing_key", "check_solution_entry", "sighash_script_code>=253", "pass_over_short_signature", "solver_object_reused", "checker_object_reused", "validated_with_kept_context"]
 # (wire_tx_* probes are fired by the wire_tx step, which only the S-WIRE planner emits; they are declared there)
 
 _STD = None
@@ -230,7 +230,7 @@ def gen_plan(rng, tier, index, config=None):
             steps.append({"op": "fork", "copy": cp, "dst": "c%d" % ncopies})
             ncopies += 1
         elif op == "validate":
-            steps.append({"op": "validate", "copy": cp, "how": r.pick(["each", "each", "count", "check_solution"])})
+            steps.append({"op": "validate", "copy": cp, "how": r.pick(["each", "each", "count", "check_solution", "kept_context"])})
         elif op == "tamper":
             forkcoin = sigkind in ("bch", "btg")
             kind = r.weighted([("version", 2), ("locktime", 2), ("outpoint", 2), ("sequence", 2), ("out_value", 3),
@@ -297,15 +297,16 @@ def gen_plan(rng, tier, index, config=None):
                  {"op": "validate", "copy": "c0", "how": "each"}]
     elif scen == "commit_sweep":
         # everything signed, then every kind of field change in turn, each followed by validation and a revert
+        vhow = r.pick(["each", "kept_context", "kept_context", "check_solution"])
         steps = [steps[0], {"op": "sign", "copy": "c0", "keys": allkeys, "supply": "dict", "hash_type": r.pick(hts), "inputs": None},
-                 {"op": "validate", "copy": "c0", "how": "each"}]
+                 {"op": "validate", "copy": "c0", "how": vhow}]
         for kind in ["version", "locktime", "outpoint", "sequence", "out_value", "out_script", "out_add", "out_remove", "out_swap",
                      "unspent_value", "unspent_script", "sig_hashtype"]:
             steps.append({"op": "tamper", "copy": "c0", "kind": kind, "a": r.bits(16), "b": r.bits(16), "bit": r.below(8),
                           "bytes": r.bytes(32).hex(), "val": r.pick([1, -1, 1000])})
-            steps.append({"op": "validate", "copy": "c0", "how": "each"})
+            steps.append({"op": "validate", "copy": "c0", "how": vhow})
             steps.append({"op": "revert", "copy": "c0"})
-        steps.append({"op": "validate", "copy": "c0", "how": "each"})
+        steps.append({"op": "validate", "copy": "c0", "how": vhow})
     elif scen == "short_sig" and hd is None:
         # one key at a time over a signature of unusual length: the planner grinds an output amount until the model's
         # (deterministic, low-S) signature by the first cosigner has a 31-byte r or s, i.e. DER + hash type <= 70 bytes
@@ -470,6 +471,7 @@ def execute(plan, ctx):
     W.extra = {}
     W.solvers = {}
     W.checkers = {}
+    W.kept_ctx = {}
     W.copies = {}
     W.scripts = []
     W.V = sv.Validator(W.coin)
@@ -1083,6 +1085,33 @@ def _op_validate(ctx, W, st):
             if got is not None and got != v.valid:
                 ctx.violate("C06", "standard-verdict-mismatch", {"input": j, "pycoin": got, "model": v.valid, "why": v.why, "kind": v.kind,
                                                                 "when": "check_solution", "signed": list(v.signed)})
+    if how == "kept_context":
+        # a validator that keeps its checker and per-input contexts between validations, as long as what a context
+        # snapshots (version, lock time, this input's unlocking data, sequence and puzzle script) still holds
+        from pycoin.coins.SolutionChecker import ScriptError
+        for j, v in enumerate(verdicts):
+            u = cp.u[j] if j < len(cp.u) else None
+            if v.valid is None or u is None:
+                continue
+            i_ = cp.m["ins"][j]
+            snap_j = (cp.m["version"], cp.m["locktime"], i_["script"], tuple(i_["witness"]), i_["seq"], u["script"])
+            ent = W.kept_ctx.get((id(cp.obj), j))
+            if ent is None or ent[0] is not cp.obj or ent[3] != snap_j:
+                sc_ = cp.obj.SolutionChecker(cp.obj)
+                ent = W.kept_ctx[(id(cp.obj), j)] = (cp.obj, sc_, sc_.tx_context_for_idx(j), snap_j)
+            else:
+                ctx.probe("validated_with_kept_context")
+            try:
+                ent[1].check_solution(ent[2], flags=flags)
+                got = True
+            except ScriptError:
+                got = False
+            except Exception as e:
+                ctx.violate("C06", "validation-raised", {"input": j, "exc": type(e).__name__, "msg": str(e)[:160], "when": "kept context"})
+                continue
+            if got != v.valid:
+                ctx.violate("C06", "standard-verdict-mismatch", {"input": j, "pycoin": got, "model": v.valid, "why": v.why, "kind": v.kind,
+                                                                "when": "kept checker and context", "signed": list(v.signed)})
     # unknown spent output => never valid
     for j, u in enumerate(cp.u):
         if u is None:
